@@ -43,10 +43,12 @@ IN2 = TStruct("in2_t", (TField("p", INTS["uint16"]), TField("q", INTS["uint8"]))
 ININT = TStruct("inint_t", (TField("p", INTS["uint8"]), TField("q", INTS["int16"])))  # all-integer (null-term capable)
 IND = TStruct("ind_t", (TField("n", INTS["uint8"]), TField("d", TArr(CHAR, "n"))))  # dynamic
 UN = TStruct("un_t", (TField("w", INTS["uint16"]), TField("b", TArr(INTS["uint8"], 3))), union=True)
+ANONH = TStruct("__anon_h", (TField("hv", INTS["uint8"]), TField("hw", INTS["uint16"])))
+UNH = TStruct("unh_t", (TField(None, ANONH), TField("raw", INTS["uint32"])), union=True)  # anonymous struct (hole when aligned) ties with a regular member
 ANON = TStruct("__anon_a", (TField("ax", INTS["uint8"]), TField("ay", INTS["uint16"])))
 NEST2 = TStruct("nest2_t", (TField("h", INTS["uint8"]), TField("i", IN)))
 
-NAMED = {t.name: t for t in (E8, E16s, F32, F16, E24, IN, IN2, ININT, IND, UN, NEST2)}
+NAMED = {t.name: t for t in (E8, E16s, F32, F16, E24, IN, IN2, ININT, IND, UN, UNH, NEST2)}
 
 
 def _klass(t, bits) -> str:
@@ -108,7 +110,7 @@ def atoms_wide() -> list[Atom]:
         A.append(atom(INTS[n]))
     for n in FLOATS:
         A.append(atom(FLOATS[n]))
-    A += [atom(x) for x in (CHAR, WCHAR, ULEB, ILEB, VOID, E8, E16s, F32, IN, IN2, IND, UN, NEST2)]
+    A += [atom(x) for x in (CHAR, WCHAR, ULEB, ILEB, VOID, E8, E16s, F32, IN, IN2, IND, UN, UNH, NEST2)]
     A.append(atom(ANON, anon=True))
     A += [atom(TPtr(INTS["uint8"])), atom(TPtr(IN)), atom(TPtr(CHAR)), atom(TPtr(TPtr(INTS["uint16"])))]
     for e in ARRAY_ELEMS_WIDE:
